@@ -151,8 +151,8 @@ for directed in (False, True):
                             or (loops and ids == [0, 1] and not strnodes and v is None and (sn, en) == (True, True)) \
                             or (ids == [0, 2, 3] and strnodes and v is None and not sn and not en and not directed and not loops) \
                             or (directed and ids == [0, 1] and not strnodes and v in (None, 1) and (sn, en) in ((False, False), (True, True)) and not loops)
-                        keep = quick or (not directed and N == 3 and v in (None, 1) and (sn, en) in ((False, False), (True, True))) \
-                            or (not directed and N == 4 and not strnodes and (sn, en) == (True, True) and v is None and not loops) \
+                        keep = quick or (not directed and N == 3 and ids in ([0, 1, 2], [0, 2, 3]) and v in (None, 1) and not loops
+                                         and (sn, en) in ((False, False), (True, True))) \
                             or (directed and ids in ([0, 1], [0, 1, 2]) and N == 3 and not strnodes and v is None and (sn, en) == (True, True))
                         if not keep:
                             continue
